@@ -83,7 +83,16 @@ class LiquidError(Exception):
                 break
 
         if target_line_index == -1:
-            raise ValueError("index is out of bounds for the given string")
+            if index != len(text):
+                raise ValueError("index is out of bounds for the given string")
+
+            # The position just past the last character, where "end of file" is
+            # found. That is at the end of the last line, or on a new line if the
+            # text ends with a line break.
+            if not lines or lines[-1] != lines[-1].splitlines()[0]:
+                lines.append("")
+            target_line_index = len(lines) - 1
+            cumulative_length = len(text)
 
         # Line number (1-based)
         line_number = target_line_index + 1
